@@ -34,7 +34,7 @@ Definition add (t : trie) (sym : str) (ty : ttype) : trie :=
   | v0 :: rest =>
       let t1 := ensure t [v0] in
       let t2 := match node t1 [v0] with
-                | Some i => if ttype_eqb (tt i) Unknown then set_node t1 [v0] {| valid := true; tt := Symbol |} else t1
+                | Some i => if negb (valid i) then set_node t1 [v0] {| valid := true; tt := Symbol |} else t1
                 | None => t1 end in
       descend t2 [v0] rest ty
   end.
